@@ -330,6 +330,12 @@ func c19CLI(w *Worker, c *c19Case, expectFail bool, libOut []byte, bad func(kind
 	in, outp := filepath.Join(dir, "in.y"), filepath.Join(dir, "out.txt")
 	os.WriteFile(in, []byte(c.Text), 0o644)
 	os.WriteFile(outp, []byte(sentinel), 0o644)
+	if w.Out.Counters["cli_runs"]%2 == 1 {
+		// every second run finds a write-protected file at the output path (generated files are often kept
+		// read-only): a failing run must leave it where it is all the same
+		os.Chmod(outp, 0o444)
+		w.Count("cli_runs_over_a_write_protected_file", 1)
+	}
 	ino := inode(outp)
 	flags := map[string][]string{gen.Go: {"go"}, gen.GoU: {"-u", "go"}, gen.GoO: {"-o", "go"}, gen.GoOU: {"-o", "-u", "go"}, gen.TS: {"typescript"}}
 	args := append([]string{"generate"}, flags[c.Variant]...)
